@@ -1159,7 +1159,8 @@ mod handle_cache_helpers {
         Option<(ResponsePipeFuture, Option<u64>)>,
         comprash::PathQuery,
     ) {
-        let path_query = comprash::PathQuery::from(request.uri());
+        // same URI as the cache lookup in `handle_cache`
+        let path_query = comprash::PathQuery::from(overide_uri.unwrap_or_else(|| request.uri()));
         let (mut resp, mut client_cache, mut server_cache, mut compress, future) =
             match sanitize_data {
                 Ok(_) => {
